@@ -51,7 +51,13 @@ func c04Gen(t *rapid.T) c04Case {
 	}
 	n := rapid.IntRange(1, maxLen).Draw(t, "nactions")
 	for i := 0; i < n; i++ {
-		switch rapid.IntRange(0, 4).Draw(t, "op") {
+		switch rapid.IntRange(0, 5).Draw(t, "op") {
+		case 5:
+			if c.Wrapper != "dsse" {
+				c.Actions = append(c.Actions, c04Action{Op: "sign", Key: rapid.SampledFrom(names).Draw(t, "key")})
+				break
+			}
+			c.Actions = append(c.Actions, c04Action{Op: "spoil"})
 		case 4:
 			c.Actions = append(c.Actions, c04Action{Op: "mutate", Key: rapid.SampledFrom([]string{"map", "text", "both"}).Draw(t, "mutation")})
 		case 0:
@@ -181,6 +187,42 @@ func c04Run(c c04Case, r *hx.Rec) error {
 			}
 			model = map[string]bool{}
 			ops = append(ops, "m")
+		case "spoil":
+			// DSSE: the file on disk gets every signature value damaged (still base64), then it is loaded:
+			// the entries keep their key ids but no longer verify; a later Sign by the same key must
+			// again yield metadata that verifies under it
+			if len(md.Sigs()) == 0 || c.Wrapper != "dsse" {
+				ops = append(ops, "skip")
+				continue
+			}
+			p, err := c04Dump(md, dir, fmt.Sprintf("spoil%d.json", i))
+			if err != nil {
+				return fmt.Errorf("step %d: Dump failed: %v", i, err)
+			}
+			if _, err := editFile(p, hx.JSONStyle{Indent: 1}, func(top map[string]any) bool {
+				sigs, _ := top["signatures"].([]any)
+				for _, e := range sigs {
+					if m, ok := e.(map[string]any); ok {
+						if v, _ := m["sig"].(string); len(v) > 4 {
+							repl := "A"
+							if v[2] == 'A' {
+								repl = "B"
+							}
+							m["sig"] = v[:2] + repl + v[3:]
+						}
+					}
+				}
+				return true
+			}); err != nil {
+				return fmt.Errorf("harness: %v", err)
+			}
+			l, err := intoto.LoadMetadata(p)
+			if err != nil {
+				return fmt.Errorf("step %d: LoadMetadata of an envelope with damaged signature values failed: %v", i, err)
+			}
+			md = l
+			model = map[string]bool{}
+			ops = append(ops, "x")
 		case "reload", "reload-deprecated":
 			if len(md.Sigs()) == 0 && c.Wrapper == "dsse" {
 				// an envelope without signatures: round trip of unsigned envelopes is C12's subject
